@@ -182,7 +182,9 @@ def _synthetic(case):
         return ('exc', repr(e), [repr(f) for f in frags])
     # the encoded form must decode back to the raw tuples
     enc = sourcemap.encode_sourcemap('out.js', *res)
-    return ('ok', rec, enc['mappings'], [repr(f) for f in frags], text)
+    return ('ok', rec, enc['mappings'], [repr(f) for f in frags], text,
+            [[[list(x) for x in l] for l in res[0]], list(res[1]),
+             list(res[2])])
 
 
 def _printer_stream(case):
@@ -250,24 +252,64 @@ def main(tier, seed, replay=None):
         'NotImplemented source = about:invalid']
     build_scratch()
     rng = random.Random(seed)
+    # (a) synthetic streams: every reachable state of spec/MapWriter.tla is
+    # one stream of fragment kinds, together with the map the modelled
+    # writer produces for it (TLC has checked MapMeansStream, IndicesInRange
+    # and LineCount on each); longer ones from tlc -simulate (which checks
+    # - and emits - every successor of every state of its random walks)
     work = []
+    model = {}
     n = 3 if tier == 'quick' else 4
-    for k in range(1, n + 1):
-        for kinds in itertools.product(KINDS, repeat=k):
-            if not well_formed(kinds):
-                continue
-            for normalize in (True, False):
-                for fs in (True, False):
-                    work.append((kinds, normalize, fs, len(work)))
-    for _ in range(6000 if tier == 'quick' else 120000):
-        kinds = tuple(rng.choice(KINDS) for _ in range(rng.randrange(4, 9)))
-        if not well_formed(kinds):
+    cfg = ('SPECIFICATION Spec\nCONSTANTS\n MaxFrags = %%d\n Kinds = {%s}\n'
+           'INVARIANT MapMeansStream\nINVARIANT IndicesInRange\n'
+           'INVARIANT LineCount\nINVARIANT Emit\n'
+           % ', '.join(json.dumps(k) for k in KINDS))
+    dummy = {'Dummy_': '---- MODULE Dummy_ ----\n====\n'}
+    mw = run_tlc('MapWriter', cfg='MapWriter.cfg', cfg_text=cfg % n,
+                 modules=dummy, workers=12, heap='6g', must_succeed=False)
+    rep.add_tlc(mw)
+    ms = run_tlc('MapWriter', cfg='MapWriter.cfg', cfg_text=cfg % 8,
+                 modules=dummy, workers=4, heap='4g', must_succeed=False,
+                 simulate=25 if tier == 'quick' else 600, depth=9,
+                 seed=seed + 3)
+    rep.add_tlc(ms)
+    for r0 in (mw, ms):
+        if r0.violated:
+            rep.violation('C09 model invariant=%s' % r0.violated,
+                          'spec/MapWriter.tla (the modelled writer) violates '
+                          '%s: %s' % (r0.violated, r0.raw[-1500:]),
+                          {'tlc': r0.cmd})
+    seen = set()
+    for line in mw.lines + ms.lines:
+        d = line if isinstance(line, dict) else json.loads(line)
+        key = (tuple(d['kinds']), d['normalize'], d['firstSource'])
+        if not d['kinds'] or key in seen:
             continue
-        work.append((kinds, rng.random() < 0.5, rng.random() < 0.5,
-                     len(work)))
+        seen.add(key)
+        model[len(work)] = d
+        work.append((key[0], key[1], key[2], len(work)))
+    rep.notes['model_streams'] = len(work)
     nsyn = len(work)
     res = impl.pmap(_synthetic, work, chunk=500)
     rep.mark('synthetic')
+    # spec -> code conformance: the real write() must return what the
+    # modelled writer returns (a difference is drift of the model, reported;
+    # the verdict on the real map is MapTrace's below)
+    drift = 0
+    for case, r in zip(work, res):
+        if r[0] != 'ok':
+            continue
+        d = model[case[-1]]
+        got = (r[1]['mappings'], list(r[5][1]), list(r[5][2]))
+        want = (d['mappings'], d['sources'], d['names'])
+        if got != want:
+            drift += 1
+            if drift <= 3:
+                rep.notes.setdefault('drift_examples', []).append(
+                    {'kinds': d['kinds'], 'normalize': d['normalize'],
+                     'firstSource': d['firstSource'], 'model': want,
+                     'code': got})
+    rep.notes['drift_model_vs_code'] = drift
     # (b) printer streams
     themes = gen.run_themes(['stmt', 'lit', 'ctrl', 'lhs'], tier, rep, jobs=4)
     r, deep = gen.simulate(1200 if tier == 'quick' else 20000, maxtok=30,
